@@ -21,7 +21,7 @@ Args:
 Returns:
     a float distance norm for the weights
 """
-  from numpy import asarray, seterr, inf, abs, max, sum, expand_dims
+  from numpy import asarray, seterr, inf, abs, max, min, sum, expand_dims
   weights = asarray(weights, dtype=float)
   if not p:
     w = sum(weights != 0.0, dtype=float, axis=axis) # number of nonzero elements
